@@ -2,6 +2,7 @@
 From Coq Require Import Floats.
 From EF Require Import Model.Base Gen.Tables Model.Lexer Model.Ast Model.Parser Model.Code Model.Value
                        Model.Compiler Model.Api Proofs.ParserProofs.
+From EF Require Import Gen.Tables Spec.Grammar Spec.Printer Proofs.PrinterProofs.
 Open Scope N_scope.
 
 (* Prepare succeeds only if the parser AND the compiler succeed: any recorded error rejects *)
@@ -77,3 +78,26 @@ Theorem C13_foreach_body_error_propagates : forall fuel idx ident v body c c1,
   (forall c2, compile_block fuel body c2 = CErr) ->
   compile_expr (S fuel) (EForeach idx ident v body) c = CErr.
 Proof. exact ParserProofs.foreach_body_error_propagates. Qed.
+
+(* ------------------------------------------------------------------ *)
+(* NOTHING IS DROPPED OR MERGED: parse o print = identity on the WHOLE language.  Every program the
+   parser can produce (`printable`: literals agree with their values, names are identifiers and not
+   keywords, no conditional expression inside the arm of another, `local` only inside functions, ++/--
+   paired with their name, at most one default per switch) - every construct: function definitions,
+   local, assignment, compound assignment, ++ --, if / else if / else, while, both foreach forms, switch
+   with cases and default, return, calls, index, member, array and hash literals, conditional
+   expressions, strings, regexps with flags, floats - at any nesting up to the parser's limit, has a
+   spelling that the parser maps back to EXACTLY that tree: no construct, however deeply nested, is
+   lost, reordered or merged with its neighbour. *)
+Theorem C13_parse_show_program : forall (pf : str -> option (option float)) (p : program),
+  printable p = true -> floats_known pf p -> (prog_depth p <=? max_depth) = true ->
+  parse_tokens pf max_depth (show_program p ++ [eof]) = ParseOk p.
+Proof. exact PrinterProofs.parse_show_program_max. Qed.
+
+(* non-vacuity: an 18-statement program using every construct is printable and round-trips; its nesting
+   depth is 10, and a limit of 9 rejects it *)
+Theorem C13_parse_show_example :
+  printable PrinterProofs.Demo.demo = true /\
+  parse_tokens PrinterProofs.Demo.pf0 max_depth (show_program PrinterProofs.Demo.demo ++ [eof]) = ParseOk PrinterProofs.Demo.demo /\
+  parse_tokens PrinterProofs.Demo.pf0 9 (show_program PrinterProofs.Demo.demo ++ [eof]) = ParseReject.
+Proof. exact (conj PrinterProofs.Demo.demo_printable (conj PrinterProofs.Demo.demo_roundtrip PrinterProofs.Demo.demo_depth_tight)). Qed.
